@@ -478,6 +478,9 @@ class RawAlgorithmsMixIn:
             raise NotImplementedError
         (D,P) = y_data.shape[:2]
 
+        if isinstance(r, numpy.ndarray) and r.ndim == 0:
+            r = r[()]    # a zero-dimensional array is the scalar it holds
+
         if isinstance(r, (int, numpy.integer)) and r >= 0:
             if r == 0:
                 y_data[...] = 0.
@@ -531,6 +534,9 @@ class RawAlgorithmsMixIn:
         # print 'y_data=',y_data
         # print 'xbar_data=',xbar_data
         # print 'ybar_data=',ybar_data
+
+        if isinstance(r, numpy.ndarray) and r.ndim == 0:
+            r = r[()]
 
         if isinstance(r, (int, numpy.integer)) and r >= 0:
 
